@@ -155,7 +155,7 @@ def replay(binary, inp_obj, tag, extra_args=None, timeout=3600):
     return out
 
 
-def validate_trace(module, cfg, ndjson, tag, timeout=1800, cfg_fallback=None):
+def validate_trace(module, cfg, ndjson, tag, timeout=900, cfg_fallback=None):
     """run the trace spec over an ndjson file; returns (viols, nonconfs, consumed_ok, raw)"""
     r = run_tlc(module, cfg, "tv_" + tag, workers=1, env={"TRACE": ndjson}, timeout=timeout, depth_first=True, keep_tags=())
     out = r["out"]
